@@ -104,13 +104,24 @@ def sig_of(cfg: dict, what: str) -> dict:
     return {"engine": "sched", "variant": cfg["variant"], "symptom": kind}
 
 
+def _selftest(thorough):
+    from vf import sched_selftest
+    return sched_selftest.selftest(thorough)
+
+
 def run(ctx: core.Ctx) -> None:
     cfgs = sorted(configs(ctx.tier), key=weight, reverse=True)
     results = []
     with core.pool(need_sedpack=False) as ex:
+        st = ex.submit(_selftest, ctx.tier == "thorough")
         for r in ex.map(explore_config, cfgs, chunksize=1):
             results.append(r)
+        errors, stats = st.result()
     report(ctx, results)
+    for e in errors:
+        ctx.harness_error(e)
+    ctx.part("differential self-test of the fake primitives against real "
+             "threading/queue", **stats)
 
 
 def report(ctx: core.Ctx, results: list[dict], label: str = "") -> None:
